@@ -425,6 +425,25 @@ def run(case):
         v('C15.placeholder_raises_on_use', [type(exc).__name__],
           'placeholder use raised %s: %s' % (type(exc).__name__,
                                              probes.scrub(str(exc))[:200]))
+      # asking for the (resolved) bindings uses the value as well
+      exc = None
+      got = None
+      try:
+        with gin.config_scope(scope if scope else None):
+          got = gin.get_bindings(name)
+      except Exception as e:  # pylint: disable=broad-except
+        exc = e
+      log.add('get_bindings', scope, name, type(exc).__name__ if exc else None)
+      if exc is None:
+        v('C15.placeholder_raises_on_use', ['get_bindings', 'no-error'],
+          'get_bindings(%r) under %r handed out %s although %s holds an '
+          'unknown-reference placeholder' %
+          (name, scope, probes.scrub(repr(got))[:200], param))
+      elif 'No configurable matching' not in str(exc):
+        v('C15.placeholder_raises_on_use', ['get_bindings',
+                                            type(exc).__name__],
+          'get_bindings raised %s: %s' % (type(exc).__name__,
+                                          probes.scrub(str(exc))[:200]))
     if cfg_has_ph and world.config._CONFIG:  # pylint: disable=protected-access
       exc = None
       try:
